@@ -150,6 +150,15 @@ def walkReads (env : Walk.Env) (s : Stmt) : List String :=
   | .ok g => (Assemble.stmtRead g).filterMap (fun n => match n with | .ds d => some (Holder.printedDS g d) | _ => none)
   | .error _ => []
 
+/-- end‑to‑end column pairs of a statement by the walk -/
+def walkPairs (env : Walk.Env) (s : Stmt) : List (String × String) :=
+  match Walk.analyze env false s with
+  | .ok g => (Paths.columnLineage g).filterMap (fun p =>
+      match p.head?, p.getLast? with
+      | some (.col a _), some (.col b _) => some (a, b)
+      | _, _ => none)
+  | .error _ => []
+
 /-! ### the optional AS keyword
 
 What is proved: (1) `toggleAs_tables` above — the specification does not see it, for all statements; (2) the leaves of
@@ -158,6 +167,26 @@ What is NOT proved: `Walk.analyze env silent (toggleAs s) = Walk.analyze env sil
 identifies a subquery by its raw text (`models.py:132‑136`, `Walk.subqRaw`) and names an un‑aliased expression item by
 its text, and the text of `(select a from t as x)` differs from that of `(select a from t x)`; the graphs are equal only
 up to those raw texts (the correspondence check masks `subquery_<hash>` names for this reason). -/
+
+/-- `insert into tgt select d.a from (select x.a from t1 x) d` -/
+def asStmt : Stmt :=
+  .insert .insertInto false ["tgt"] none
+    (.select false [.mk (.col ["d"] "a") none false]
+      [.mk (.derived (.select false [.mk (.col ["x"] "a") none false] [.mk (.table ["t1"] (some "x") false) []] none [] none)
+        (some "d") false) []] none [] none) false
+
+def walkNodes (env : Walk.Env) (s : Stmt) : List Node :=
+  match Walk.analyze env false s with
+  | .ok g => g.nodes
+  | .error _ => []
+
+/-- why `Walk.analyze env silent (toggleAs s) = Walk.analyze env silent s` is not a theorem: on `asStmt` the two holder
+    graphs have different nodes (the derived table is the node `subq "(select x.a from t1 as x)"` in one and
+    `subq "(select x.a from t1 x)"` in the other) while tables and end‑to‑end pairs are the same -/
+theorem toggleAs_changes_only_raw_identity :
+    walkNodes {} (toggleAs asStmt) ≠ walkNodes {} asStmt ∧
+    walkReads {} (toggleAs asStmt) = walkReads {} asStmt ∧ walkPairs {} (toggleAs asStmt) = walkPairs {} asStmt ∧
+    walkPairs {} asStmt = [("<default>.t1.a", "<default>.tgt.a")] := by decide +kernel
 
 theorem datasetOfElem_ignores_as (env : Walk.Env) (g : LGraph) (parts : List String) (alias : Option String) (k k' : Bool) :
     Walk.datasetOfElem env g (.table parts alias k) = Walk.datasetOfElem env g (.table parts alias k') := rfl
@@ -232,15 +261,6 @@ def d7Stmt : Stmt :=
       [.mk (.table ["sch1", "foo"] (some "q1") false)
         [.mk "join" (.table ["sch2", "tab"] (some "t9") false) (some (.bin "=" (.col ["q1"] "k") (.col ["t9"] "k"))) []]]
       none [] none) false
-
-/-- end‑to‑end column pairs of a statement by the walk -/
-def walkPairs (env : Walk.Env) (s : Stmt) : List (String × String) :=
-  match Walk.analyze env false s with
-  | .ok g => (Paths.columnLineage g).filterMap (fun p =>
-      match p.head?, p.getLast? with
-      | some (.col a _), some (.col b _) => some (a, b)
-      | _, _ => none)
-  | .error _ => []
 
 /-- **D7 witness through the whole walk** (model in force = code as found): `insert into tgt select q1.x from sch1.foo q1
     join sch2.tab t9 on q1.k = t9.k` reports `sch1.foo.x → tgt.x`; after `q1 ↦ tab` it reports `sch2.tab.x → tgt.x` -/
